@@ -2,7 +2,7 @@
 
 from __future__ import annotations
 
-from .. import e1, impl
+from .. import envs, e1, impl
 from ..chartgen import mk
 
 ID = "C05"
@@ -32,6 +32,7 @@ NT = 9
 
 
 def setup():
+    envs.enable(64)  # E1-M: every 64th case again under every environment of mc/envs.py
     global probe
     impl.load()
     probe = e1.compile_probe(PROBE_SRC)
